@@ -12,6 +12,34 @@ use std::collections::BTreeMap;
 
 pub type Args = BTreeMap<String, String>;
 
+/// Argument transport: control characters and backslash travel as \\n \\r \\t \\\\ so that one argument is one line.
+fn esc(v: &str) -> String {
+    v.replace('\\', "\\\\").replace('\n', "\\n").replace('\r', "\\r").replace('\t', "\\t")
+}
+
+fn unesc(v: &str) -> String {
+    let mut out = String::new();
+    let mut it = v.chars();
+    while let Some(c) = it.next() {
+        if c == '\\' {
+            match it.next() {
+                Some('n') => out.push('\n'),
+                Some('r') => out.push('\r'),
+                Some('t') => out.push('\t'),
+                Some('\\') => out.push('\\'),
+                Some(o) => {
+                    out.push('\\');
+                    out.push(o);
+                }
+                None => out.push('\\'),
+            }
+        } else {
+            out.push(c);
+        }
+    }
+    out
+}
+
 fn main() {
     std::panic::set_hook(Box::new(|_| {}));
     let argv: Vec<String> = std::env::args().collect();
@@ -26,7 +54,7 @@ fn main() {
             let mut args = Args::new();
             for a in &argv[3..] {
                 if let Some((k, v)) = a.split_once('=') {
-                    args.insert(k.to_string(), v.to_string());
+                    args.insert(k.to_string(), unesc(v));
                 }
             }
             match ops::run(op, &args) {
@@ -48,7 +76,7 @@ fn main() {
                 let kv: Vec<String> = args.iter().map(|(k, v)| format!("{}={:?}", k, v)).collect();
                 println!("WITNESS op={} {}", op, kv.join(" "));
                 for (k, v) in args {
-                    println!("  arg {}={}", k, v);
+                    println!("  arg {}={}", k, esc(v));
                 }
                 o.print();
             }
